@@ -183,7 +183,12 @@ impl Prop for C10 {
         let boundary = proptest::sample::select(vec![31u8, 32, 33, 47, 63, 64, 65, 96, 127, 128, 129, 191, 192, 193, 254, 255]).prop_flat_map(|n| graph_strategy(&ALL_KINDS, n, n, sparse, &[0], 5));
         // procedurally generated graphs of 300..40000 nodes (names unrelated to insertion order)
         let big = big_graph_strategy(&[0, 1], 300, 40000, &[0]);
-        (prop_oneof![6000 => a, 2000 => b, 1000 => c, 20 => boundary, 1 => big], any::<u8>()).prop_map(|(g, k)| CompCase { g, k }).boxed()
+        fn none(_n: usize) -> usize {
+            0
+        }
+        // pure shapes (no random edges on top): disconnected structures stay disconnected
+        let pure = graph_strategy(&ALL_KINDS, 13, 64, none, &[0], 9);
+        (prop_oneof![6000 => a, 2000 => b, 1000 => c, 300 => pure, 20 => boundary, 1 => big], any::<u8>()).prop_map(|(g, k)| CompCase { g, k }).boxed()
     }
     fn random_cases(&self, tier: Tier) -> u32 {
         tier.pick(300_000, 3_000_000)
